@@ -116,6 +116,7 @@ def verify(contract, module, qualname, variant=None, timeout_ms=10000):
         out.append({"_prooflost": fnid, "reason": "%d proof-support obligation(s) not discharged, first: %s" % (len(support), support[0]["id"])})
     out.append({"_stats": dict(v_functions=1, v_vcs=len(vcs), v_time=round(time.time() - t0, 3), v_callsite_contract_uses=getattr(eng, "callsite_uses", 0),
                                v_facts_assumed_from_callee_contracts=getattr(eng, "assumed_facts", 0),
+                               v_facts_from_callsite_contracts_discharged_against_the_callee=getattr(eng, "derived_facts", 0),
                                v_obligations_raised_at_call_sites=getattr(eng, "callsite_obligations", 0))})
     return out
 
@@ -125,11 +126,11 @@ def _is_support(oid):
     return name.startswith("loop") or name.startswith("lemma:")
 
 
-def verify_callsite(label, handler, contract, module, qualname, variant, nargs, kw):
+def verify_callsite(label, handler, contract, module, qualname, variant, nargs, kw, ghosts=()):
     """One call-site contract against the contract proved for the callee (pyvc/conform.py)."""
     from .conform import conform
     t0 = time.time()
-    out = conform(label, handler, contract, module, qualname, variant, nargs, kw)
+    out = conform(label, handler, contract, module, qualname, variant, nargs, kw, ghosts=ghosts)
     out.append({"_stats": dict(v_callsite_contracts_checked_against_callee_contract=1, v_conformance_obligations=len(out),
                                v_conformance_time=round(time.time() - t0, 3))})
     return out
